@@ -213,6 +213,12 @@ impl AsyncRead for MockReader {
             for b in buf.iter_mut().take(n) {
                 *b = s.data.pop_front().unwrap();
             }
+            // only buf[..n] is data: like a transport that decrypts or unmasks in place, the mock leaves something else in the
+            // bytes right behind it (continuation-bit patterns and zero in turn)
+            let fill = [0xffu8, 0x80, 0x7f, 0x00, 0xd0][(s.reads % 5) as usize];
+            for b in buf.iter_mut().skip(n).take(64) {
+                *b = fill;
+            }
             s.reads += 1;
             s.total_read += n as u64;
             return Poll::Ready(Ok(n));
